@@ -6,6 +6,7 @@ import Rbql.Model.Writer
 import Rbql.Model.Like
 import Rbql.Model.PyString
 import Rbql.Model.Sources
+import Rbql.Model.Parse
 import Driver.Codec
 import Driver.EngineOps
 open Rbql Driver
@@ -56,6 +57,32 @@ def doWrite (pol js d linesep hdr table : String) : Except WriteErr WState :=
   let c : WCfg := { delim := decStr d, policy := decPolicy pol, lineSep := decStr linesep, js := decBool js }
   writeAll c (if hdr == "N" then none else some (decList (hdr.drop 1).toString)) (decCellTable table)
 
+def encStmt : Stmt → String
+  | .strictLeftJoin => "STRICT LEFT JOIN" | .leftOuterJoin => "LEFT OUTER JOIN" | .leftJoin => "LEFT JOIN" | .innerJoin => "INNER JOIN"
+  | .join => "JOIN" | .select => "SELECT" | .orderBy => "ORDER BY" | .where_ => "WHERE" | .update => "UPDATE" | .groupBy => "GROUP BY"
+  | .limit => "LIMIT" | .except => "EXCEPT" | .from => "FROM"
+
+def encParseErr : ParseError → String
+  | .moreThanOne s => "err more-than-one " ++ (encStmt s).replace " " "_"
+  | .updateNotFirst => "err update-not-first" | .selectNotFirst => "err select-not-first"
+  | .noSelectNoUpdate => "err no-select-no-update" | .bothSelectUpdate => "err both-select-update"
+  | .limitNotInt => "err limit-not-int" | .invalidJoin => "err invalid-join"
+
+def stmtRank : Stmt → Nat
+  | .join => 0 | .select => 1 | .orderBy => 2 | .where_ => 3 | .update => 4 | .groupBy => 5 | .limit => 6 | .except => 7 | _ => 8
+
+def encAction (a : Action) : String :=
+  let opt (o : Option String) := match o with | some x => x | none => "~"
+  s!"{(encStmt a.stmt).replace " " "_"}:{encStr a.text}:{opt (a.joinSubtype.map (fun s => (encStmt s).replace " " "_"))}:{opt (a.reverse.map encBool)}:{opt (a.top.map toString)}:{encBool a.distinct}:{encBool a.distinctCount}"
+
+def encActions (r : Except ParseError Actions) : String :=
+  match r with
+  | .error e => encParseErr e
+  | .ok a =>
+    let sorted := (List.range 9).flatMap (fun k => a.actions.filter (fun x => stmtRank x.stmt == k))
+    let w := match a.withModifier with | some x => encStr x | none => "~"
+    s!"ok {w} " ++ " ".intercalate (sorted.map encAction)
+
 def step (line : String) : String :=
   match line.splitOn " " with
   | ["split", pol, pres, d, s] =>
@@ -99,6 +126,20 @@ def step (line : String) : String :=
           let t := if enc == "none" then text else univNewlines text
           encRead (readAll (mkCfg pol enc (toString (t.length + 1)) d "~") false none (if t.isEmpty then [] else [t]))
       s!"{encWrite w} | {rd}"
+  | ["cleanup", t] => encStr (cleanupQuery (decStr t))
+  | ["seplit", t] => let r := separateLiterals (decStr t); s!"{encStr r.1} {encList r.2}"
+  | ["combine", e, lits] => encStr (combineLiterals (decStr e) (decList lits))
+  | ["redundant", t] => encStr (removeRedundantTableName (decStr t))
+  | ["actions", t] => encActions (separateActions (decStr t))
+  | ["parse", t] =>
+    -- the whole shallow-parse pipeline: cleanup, literal separation, redundant table name, actions
+    let fl := separateLiterals (cleanupQuery (decStr t))
+    let fe := removeRedundantTableName fl.1
+    s!"{encList fl.2} | " ++ encActions (separateActions fe)
+  | ["joinexpr", t] =>
+    (match parseJoinExpression (decStr t) with
+     | .error e => encParseErr e
+     | .ok (tid, pairs) => s!"ok {encStr tid} " ++ " ".intercalate (pairs.map (fun p => encStr p.1 ++ "=" ++ encStr p.2)))
   | ["sqlname", name] => (match sqliteStatement (decStr name) with | some st => "S" ++ encStr st | none => "N")
   | ["pyescape", q, name] => encStr (pyEscape (if q == "d" then QUOTE else SQUOTE) (decStr name))
   | ["pyeval", q, body] =>
